@@ -141,6 +141,11 @@ def check_cli(cr, ctx):
 
     ctx.case()
     fmt = "tpf" if cr["assembly_file"].suffix == ".tpf" else "agp"
+    stale = bool(cr.get("stale_info_yaml"))
+    if stale:
+        # the report of an earlier curation written under the same output name is still in the directory
+        (cr["dir"] / "out.info.yaml").write_text("assemblies:\n  old1:\n    manual_breaks: 77\n    manual_joins: 88\nmanual_haplotig_removals: 9\n")
+        ctx.count("cli:report-of-an-earlier-run-in-place")
     res = cli_runs.run_pretext_to_asm(cr, out_name=f"out.{fmt}")
     if res["exit_code"] != 0:
         ctx.count("cli:error-exit")
@@ -155,7 +160,7 @@ def check_cli(cr, ctx):
             if "haplotigs" in n and "all_haplotigs" not in n:
                 htig_scaffolds = len(scs)
     ref = junction_ref.count(cr["input"], out)
-    case = cli_runs.case_of(cr)
+    case = cli_runs.case_of(cr, {"stale_info_yaml": stale})
     log = (cr["dir"] / "out.log").read_text()
     m = re.search(r"Curation made (\d+) cuts? in (?:a )?contigs?, (\d+) breaks? at (?:a )?gaps? and (\d+) joins?", log)
     if not m:
@@ -167,7 +172,15 @@ def check_cli(cr, ctx):
     if got != exp:
         ctx.violation("log-line-counts-differ-from-written-files", f"log says cuts/breaks/joins {got}, files give {exp}", case)
         return
+    if not (cr["dir"] / "out.info.yaml").exists():
+        ctx.violation("statistics-report-not-written", "the run succeeded and wrote its assemblies but no <output>.info.yaml", case)
+        return
     info = yaml.safe_load((cr["dir"] / "out.info.yaml").read_text())
+    if stale and "old1" in (info.get("assemblies") or {}):
+        ctx.violation("statistics-report-is-that-of-an-earlier-run", f"info.yaml after the run: {info}", case)
+        return
+    if "null:contig-level-input" in (cr.get("labels") or []):
+        ctx.count("cli:contig-level-null-runs")
     hr = info.get("manual_haplotig_removals")
     if hr != (htig_scaffolds or 0):
         ctx.violation("haplotig-removal-count", f"info.yaml manual_haplotig_removals={hr}, haplotig file has {htig_scaffolds} scaffolds", case)
@@ -186,9 +199,14 @@ def run_cli(shard, ctx):
     scratch = Path(os.environ.get("VERIF_SHARD_SCRATCH", "."))
     for i in range(shard["n"]):
         rng = rng_for(shard["seed"], "c11cli", shard["index"], i)
-        cr = cli_runs.text_case(rng, scratch / f"c{i}", fmt=rng.choice(["tpf", "agp"]), tagged=True, two_hap=(i % 4 == 3), strands=(1, -1))
-        if i % 2 == 0 and cli_runs.add_haplotig_slivers(rng, cr):
-            ctx.count("cli:cases-with-haplotig-slivers")
+        if i % 10 == 9:
+            cr = cli_runs.text_case(rng, scratch / f"c{i}", fmt=rng.choice(["tpf", "agp"]), strands=(1, -1), contig_level_null=True)
+            cr["stale_info_yaml"] = True
+        else:
+            cr = cli_runs.text_case(rng, scratch / f"c{i}", fmt=rng.choice(["tpf", "agp"]), tagged=True, two_hap=(i % 4 == 3), strands=(1, -1))
+            if i % 2 == 0 and cli_runs.add_haplotig_slivers(rng, cr):
+                ctx.count("cli:cases-with-haplotig-slivers")
+            cr["stale_info_yaml"] = i % 3 == 0
         try:
             check_cli(cr, ctx)
         finally:
@@ -206,7 +224,9 @@ def replay(case, ctx):
     if case["kind"] == "cli":
         from vf import cli_runs
 
-        check_cli(cli_runs.restore_case(case, Path(os.environ.get("VERIF_SHARD_SCRATCH", ".")) / "replay"), ctx)
+        cr = cli_runs.restore_case(case, Path(os.environ.get("VERIF_SHARD_SCRATCH", ".")) / "replay")
+        cr["stale_info_yaml"] = case.get("stale_info_yaml")
+        check_cli(cr, ctx)
     else:
         oracle(case, workloads.run_case(case), ctx)
 
@@ -234,5 +254,7 @@ def gates(c, tier):
         "cli:ok": 20,
         "cli:with-haplotigs": 3,
         "cli:cases-with-haplotig-slivers": 20,
+        "cli:report-of-an-earlier-run-in-place": 30,
+        "cli:contig-level-null-runs": 10,
     }
     return [f"{k}>={v} (got {c.get(k, 0)})" for k, v in need.items() if c.get(k, 0) < v]
